@@ -771,7 +771,10 @@ def gen_scale(tier, seed):
         for pat in SCALE_PAT:
             if pat.get("tier", tier) != tier:
                 continue
-            yield dict(pat, N=N, seed=seed, kind="particles")
+            case = dict(pat, N=N, seed=seed, kind="particles")
+            if tier == "quick" and pat["p"] == "h6" and N > 130:
+                case["wl"] = False  # cost: w_W_cap on 3 x 257 particles is left to h1 (F = 1) and to the thorough tier
+            yield case
     # particle ids with four digits in the text files
     yield dict(SCALE_PAT[0], N=1000, seed=seed, kind="particles", wl=False)
     # dense cutoff lists: 63..129+ neighbours per particle, thresholded counts above 127
@@ -957,7 +960,7 @@ def run_scale(case):
         el += e2
     popl = 0
     for coarse, ser in ((False, qs), (True, Qs)):
-        if case["kind"] == "frames" and coarse:
+        if (case["kind"] == "frames" or N >= 1000) and coarse:
             continue
         ref = X.ref_spatial(frames, Hs, ppp, width, ser)
         ref = {"r": ref["r"], "gr_lo": ref["gr"], "gr_hi": ref["gr"], "gA": ref["gA"], "amb": np.zeros(len(ref["r"]), bool)}
